@@ -238,6 +238,43 @@ fn matrix_case(t: &mut Tape, rec: &mut Rec, signers: &[Kind]) -> CaseResult {
     Ok(())
 }
 
+/// A v4/v6 Ed25519 signature packet (binary signature over `data`) assembled entirely by the
+/// reference: hashed area given as raw bytes, digest per RFC 9580 5.2.4, raw ed25519-dalek signature.
+pub fn reference_signature(kind: Kind, hashed: &[u8], data: &[u8], salt_seed: u64) -> Option<Vec<u8>> {
+    use ed25519_dalek::Signer;
+    let z = zoo::get(kind);
+    let sec_body = z.secret.primary_key.to_bytes().ok()?;
+    let kb = keys::parse_key(&sec_body, true)?;
+    if kb.alg != 27 {
+        return None;
+    }
+    let seed: [u8; 32] = keys::plain_material(kb.version, kb.protection.as_ref()?)?[..32].try_into().ok()?;
+    let sk = ed25519_dalek::SigningKey::from_bytes(&seed);
+    let v6 = kb.version == 6;
+    let version = if v6 { 6u8 } else { 4 };
+    let salt = if v6 { expand(salt_seed, 16) } else { vec![] };
+    let sf = SigFields { version, typ: 0, pk: 27, hash: 8, hashed: hashed.to_vec(), unhashed: vec![], left16: [0, 0], salt: salt.clone(), v3_created: 0, v3_keyid: vec![], value: vec![] };
+    let digest = sf.digest(data)?;
+    let sigv = sk.sign(&digest).to_bytes();
+    let mut body = vec![version, 0, 27, 8];
+    if v6 {
+        body.extend_from_slice(&(hashed.len() as u32).to_be_bytes());
+        body.extend_from_slice(hashed);
+        body.extend_from_slice(&0u32.to_be_bytes());
+    } else {
+        body.extend_from_slice(&(hashed.len() as u16).to_be_bytes());
+        body.extend_from_slice(hashed);
+        body.extend_from_slice(&0u16.to_be_bytes());
+    }
+    body.extend_from_slice(&digest[..2]);
+    if v6 {
+        body.push(salt.len() as u8);
+        body.extend_from_slice(&salt);
+    }
+    body.extend_from_slice(&sigv);
+    Some(wire::new_packet(2, &body))
+}
+
 /// signatures assembled entirely by the reference (Ed25519, raw primitive) must verify in rPGP
 fn reference_made_case(t: &mut Tape, rec: &mut Rec) -> CaseResult {
     use ed25519_dalek::Signer;
